@@ -192,7 +192,8 @@ CHECKS["C11"] = dict(
          "the ten code paths (small constants; the pre-fix ordering is a negative control that must fail). On the real "
          "actor the invariants are evaluated on a full dump after every step of every generated behaviour - independent of "
          "what the model predicts - and the dump is also compared with the spec state.",
-    note="stand-alone actor (no process range, no Raft router); dump through a read-only hook", design_ref="5 C11")
+    note="stand-alone actor (no Raft router: the applied Raft entries about persistent instances - RaftEchoUpdate / "
+         "RaftEchoRemove - are environment steps delivered as NamingRaftReq messages); dump through a read-only hook", design_ref="5 C11")
 CHECKS["C12"] = dict(
     engine="registry", technique=_REG + "; instance queries compared with the spec's QueryOf after every step; front-door leg: "
               "behaviours over the client-visible operations with the handler-derived update tags and the replicated echo of "
